@@ -5,6 +5,7 @@ import (
 	"errors"
 	"fmt"
 	"io"
+	"strings"
 	"unicode/utf8"
 
 	"github.com/go-json-experiment/json/jsontext"
@@ -164,6 +165,17 @@ func (e *decEnv) handed() int {
 
 func decRun(e *decEnv, ai, ad bool, ops []string) (steps []decStep) {
 	d := jsontext.NewDecoder(e.rd, jsontext.AllowInvalidUTF8(ai), jsontext.AllowDuplicateNames(ad))
+	if (len(e.input)+len(ops))%3 == 0 {
+		// a Decoder with a past: it has read part of another, longer stream (its buffer was
+		// refilled, it stands inside nested containers) and is then Reset onto this input
+		d = jsontext.NewDecoder(&scriptedReader{data: decoderPast, chunks: []int{13, 64, 1}})
+		for k := 0; k < 20+len(ops)%40; k++ {
+			if _, err := d.ReadToken(); err != nil {
+				break
+			}
+		}
+		d.Reset(e.rd, jsontext.AllowInvalidUTF8(ai), jsontext.AllowDuplicateNames(ad))
+	}
 	for i, op := range ops {
 		st := decStep{Op: op, Len: -1, Vok: true, Ptr: [][]int{}, Str: []int{}, Eptr: [][]int{}, Eoff: -1}
 		if e.sr != nil {
@@ -261,3 +273,6 @@ func newEnv(input []byte, kind string, chunks []int, faults map[int]bool, eofWit
 }
 
 var _ = utf8.RuneError
+
+var decoderPast = []byte(`{"past":[{"name-one":"` + strings.Repeat("v", 90) + `","k":[1,2,{"deep":[true,null,"` + strings.Repeat("w", 70) + `"]}]},` +
+	strings.Repeat(`{"again":[0.5,"x"]},`, 12) + `null],"tail":{"a":{"b":{"c":[[[]]]}}}}`)
